@@ -153,6 +153,7 @@ type rreq struct {
 
 type bpeer struct {
 	rig   *relayRig
+	cuts  bool // this peer resets its connection as soon as the first bytes of a request arrive
 	end   *sim.End
 	buf   []byte
 	out   [][]byte
@@ -178,6 +179,7 @@ type relayRig struct {
 	limit       int    // C17: body limit on /api
 	hosts       int    // upstream hosts (2 = retries enabled: the body is buffered first)
 	deadFirst   bool   // the first of two hosts refuses connections: every request is retried at the second
+	cutFirst    bool   // the first of two hosts accepts, reads the beginning of the request and resets the connection
 
 	port       int
 	started    bool
@@ -233,7 +235,11 @@ func setupRelayProxy(c *casket.Controller) error {
 					return nil, sim.ErrRefused
 				}
 				conn := rig.w.N.NewPeerConn("proxy-transport", net.IPv4(10, 7, 0, 1), 80)
-				p := &bpeer{rig: rig, end: conn.Srv}
+				p := &bpeer{rig: rig, end: conn.Srv, cuts: rig.cutFirst && strings.HasPrefix(addr, "10.7.0.1:")}
+				if p.cuts {
+					// a small receive window: a large upload is still on its way when the backend dies
+					conn.Srv.SetWindow(2048)
+				}
 				conn.Srv.OnData = p.onData
 				rig.peers = append(rig.peers, p)
 				return conn.Cli, nil
@@ -308,6 +314,15 @@ func init() {
 func (p *bpeer) onData() {
 	r := p.rig
 	p.buf = append(p.buf, p.end.Take()...)
+	if p.cuts {
+		if !p.done && len(p.buf) > 0 {
+			// a backend that dies while the request is being uploaded
+			p.done = true
+			r.c.Fault("backend-reset-during-upload")
+			p.end.Conn().Reset("backend dies during the upload")
+		}
+		return
+	}
 	for p.cur == nil {
 		wr, n, err := parseWireRequest(p.buf)
 		if err != nil {
@@ -472,13 +487,19 @@ func runRelayIn(c *sim.Ctl, mode string) {
 	if pick(30) || (mode == "C17" && pick(30)) {
 		// two upstream hosts and retries: the proxy buffers the request body before the first attempt
 		r.hosts = 2
-		r.deadFirst = pick(60)
+		switch st.Draw(5) {
+		case 0, 1, 2:
+			r.deadFirst = true
+		case 3:
+			r.cutFirst = true
+		}
 		// (scripted backend faults mark hosts down for fail_timeout; with both hosts down
 		// innocent requests are legitimately refused, so the two fault families stay apart)
 		r.faults = false
 	}
 	if pick(60) {
-		r.upRules = append(r.upRules, [2]string{"X-Up-Added", "up-value"})
+		// (a literal, or text with placeholders that expand differently for every request)
+		r.upRules = append(r.upRules, [2]string{"X-Up-Added", []string{"up-value", "up-value", "ip={remote}", "req-{>X-Req}-{method}"}[st.Draw(4)]})
 	}
 	if pick(40) {
 		r.upRules = append(r.upRules, [2]string{"-X-Remove-Me", ""})
@@ -491,7 +512,7 @@ func runRelayIn(c *sim.Ctl, mode string) {
 		}
 	}
 	if pick(60) {
-		r.downRules = append(r.downRules, [2]string{"X-Down-Added", "down-value"})
+		r.downRules = append(r.downRules, [2]string{"X-Down-Added", []string{"down-value", "down-value", "for={remote}", "req-{>X-Req}"}[st.Draw(4)]})
 	}
 	if pick(40) {
 		r.downRules = append(r.downRules, [2]string{"-X-Backend-Secret", ""})
@@ -522,7 +543,11 @@ func runRelayIn(c *sim.Ctl, mode string) {
 		b.WriteString("\t\tkeepalive 0\n")
 	}
 	for _, u := range r.upRules {
-		fmt.Fprintf(&b, "\t\theader_upstream %s %s\n", u[0], u[1])
+		if u[1] == "" {
+			fmt.Fprintf(&b, "\t\theader_upstream %s\n", u[0])
+		} else {
+			fmt.Fprintf(&b, "\t\theader_upstream %s %q\n", u[0], u[1])
+		}
 	}
 	for _, d := range r.downRules {
 		if d[1] == "" {
@@ -533,7 +558,7 @@ func runRelayIn(c *sim.Ctl, mode string) {
 	}
 	b.WriteString("\t}\n}\n")
 	text := b.String()
-	c.Params["block"] = fmt.Sprintf("base=%q without=%q transparent=%v keepalive0=%v up=%v down=%v faults=%v hosts=%d dead-first=%v limit=%d", r.base, r.without, r.transparent, r.keepalive0, r.upRules, r.downRules, r.faults, r.hosts, r.deadFirst, r.limit)
+	c.Params["block"] = fmt.Sprintf("base=%q without=%q transparent=%v keepalive0=%v up=%v down=%v faults=%v hosts=%d dead-first=%v cut-first=%v limit=%d", r.base, r.without, r.transparent, r.keepalive0, r.upRules, r.downRules, r.faults, r.hosts, r.deadFirst, r.cutFirst, r.limit)
 
 	n := 1 + st.Draw(4)
 	for i := 0; i < n; i++ {
@@ -640,6 +665,10 @@ func (r *relayRig) addReq(i int) {
 			q.hdrs = append(q.hdrs, [2]string{"Keep-Alive", "timeout=5"}, [2]string{"Proxy-Authorization", "Basic c2VjcmV0"})
 		default:
 			q.hdrs = append(q.hdrs, [2]string{"Te", "trailers"}, [2]string{"Proxy-Connection", "keep-alive"})
+		}
+		if pick(30) {
+			// field names are case-insensitive, in Connection as everywhere
+			q.hdrs = append(q.hdrs, [2]string{"Connection", []string{"x-hop3", "X-HOP3", "keep-alive, x-hOp3"}[st.Draw(3)]}, [2]string{"X-Hop3", "named-in-another-letter-case"})
 		}
 	}
 	if q.method == "POST" || q.method == "PUT" || q.method == "PATCH" {
@@ -794,6 +823,14 @@ func (r *relayRig) events(add func(sim.Event)) {
 	}
 }
 
+// expand: what the placeholders used in the generated rule values stand for, for this request.
+func (q *rreq) expand(v string) string {
+	v = strings.ReplaceAll(v, "{remote}", q.srcIP)
+	v = strings.ReplaceAll(v, "{>X-Req}", fmt.Sprint(q.id))
+	v = strings.ReplaceAll(v, "{method}", q.method)
+	return v
+}
+
 func multiset(hs [][2]string, skip func(name string) bool) map[string][]string {
 	m := map[string][]string{}
 	for _, h := range hs {
@@ -884,9 +921,9 @@ func (r *relayRig) judge() {
 					delete(want, http.CanonicalHeaderKey(u[0][1:]))
 				case strings.HasPrefix(u[0], "+"):
 					k := http.CanonicalHeaderKey(u[0][1:])
-					want[k] = append(want[k], u[1])
+					want[k] = append(want[k], q.expand(u[1]))
 				default:
-					want[http.CanonicalHeaderKey(u[0])] = []string{u[1]}
+					want[http.CanonicalHeaderKey(u[0])] = []string{q.expand(u[1])}
 				}
 			}
 			got := multiset(g.hdrs, nil)
@@ -974,9 +1011,9 @@ func (r *relayRig) judge() {
 				delete(want, http.CanonicalHeaderKey(d[0][1:]))
 			case strings.HasPrefix(d[0], "+"):
 				k := http.CanonicalHeaderKey(d[0][1:])
-				want[k] = append(want[k], d[1])
+				want[k] = append(want[k], q.expand(d[1]))
 			default:
-				want[http.CanonicalHeaderKey(d[0])] = []string{d[1]}
+				want[http.CanonicalHeaderKey(d[0])] = []string{q.expand(d[1])}
 			}
 		}
 		var keys []string
